@@ -81,6 +81,16 @@ def main():
             n += n2; fails += [dict(f, build=profile) for f in f2]
             for k, v in d2.items():
                 dist[k] = dist.get(k, 0) + v
+        # multi-table entry (CtlCheckVars::from_proof, get_challenges, verify_stark_proof_with_challenges,
+        # verify_cross_table_lookups composed as a caller has to): the c18ctl lines of harness/src/c10.rs
+        cfile = os.path.join(c.work, "cases_ctl.txt")
+        if binary and c.run_harness(binary, "c18ctl", cfile, timeout=6000):
+            n3, d3, f3 = c18stark.scan(cfile)
+            n += n3; fails += [dict(f, build=profile) for f in f3]
+            for k, v in d3.items():
+                dist[k] = dist.get(k, 0) + v
+            if n3 == 0:
+                c.broken.append("harness produced no c18ctl lines")
     reported = set()
     for f in fails:
         what = "entry=%s %s" % (f["entry"], f["why"])
